@@ -63,6 +63,10 @@ type replica struct {
 	repo *repository.GoGitRepo
 	c    *cache.RepoCache
 	user entity.Id
+	// observations resolve the bugs alternately in ascending and descending id order: what was left resident by the
+	// previous observation (and possibly made stale by the action in between) is then looked at first, before the
+	// observation itself pushes it out of a small cache
+	desc bool
 }
 
 type world struct {
@@ -163,7 +167,7 @@ func (w *world) nums(ids []entity.Id) []int {
 }
 
 // serve renders everything a cache answers, facet by facet.
-func (w *world) serve(c *cache.RepoCache) (map[string]string, []entity.Id) {
+func (w *world) serve(c *cache.RepoCache, desc bool) (map[string]string, []entity.Id) {
 	f := map[string]string{}
 	ids := c.Bugs().AllIds()
 	sort.Slice(ids, func(i, j int) bool { return ids[i] < ids[j] })
@@ -184,23 +188,31 @@ func (w *world) serve(c *cache.RepoCache) (map[string]string, []entity.Id) {
 	}
 	f["excerpts"] = sb.String()
 	sb.Reset()
-	for _, id := range ids {
+	snaps := make([]string, len(ids))
+	for k := range ids {
+		i := k
+		if desc {
+			i = len(ids) - 1 - k
+		}
+		id := ids[i]
+		var one strings.Builder
 		b, err := c.Bugs().Resolve(id)
 		if err != nil {
-			fmt.Fprintf(&sb, "%s: %v\n", id, err)
+			snaps[i] = fmt.Sprintf("%s: %v\n", id, err)
 			continue
 		}
 		s := b.Snapshot()
-		fmt.Fprintf(&sb, "%s %q %s %v |", id, s.Title, s.Status, s.Labels)
+		fmt.Fprintf(&one, "%s %q %s %v |", id, s.Title, s.Status, s.Labels)
 		for _, op := range s.Operations {
-			fmt.Fprintf(&sb, "%s,", op.Id())
+			fmt.Fprintf(&one, "%s,", op.Id())
 		}
 		for _, cm := range s.Comments {
-			fmt.Fprintf(&sb, "[%s:%q]", cm.Author.Id(), cm.Message)
+			fmt.Fprintf(&one, "[%s:%q]", cm.Author.Id(), cm.Message)
 		}
-		fmt.Fprintf(&sb, " timeline=%d actors=%d participants=%d\n", len(s.Timeline), len(s.Actors), len(s.Participants))
+		fmt.Fprintf(&one, " timeline=%d actors=%d participants=%d\n", len(s.Timeline), len(s.Actors), len(s.Participants))
+		snaps[i] = one.String()
 	}
-	f["snapshots"] = sb.String()
+	f["snapshots"] = strings.Join(snaps, "")
 	f["labels"] = fmt.Sprint(c.Bugs().ValidLabels())
 	sb.Reset()
 	battery := []string{"status:open", "status:closed", "no:label", "label:l1", "label:l2", "author:\"user A\"", "author:\"user B\"",
@@ -262,7 +274,8 @@ func (w *world) observe(ev *Event, r *replica) {
 		gitIds = append(gitIds, entity.RefToId(ref))
 	}
 	ev.Git = w.nums(gitIds)
-	live, liveIds := w.serve(r.c)
+	live, liveIds := w.serve(r.c, r.desc)
+	r.desc = !r.desc
 	ev.Live = w.nums(liveIds)
 	// a cache rebuilt from a copy of the git data
 	tmp := hx.Scratch("rebuilt")
@@ -277,7 +290,7 @@ func (w *world) observe(ev *Event, r *replica) {
 		ev.Rebuilt = []int{}
 		return
 	}
-	rebuilt, rebuiltIds := w.serve(c2)
+	rebuilt, rebuiltIds := w.serve(c2, false)
 	_ = c2.Close()
 	ev.Rebuilt = w.nums(rebuiltIds)
 	eq := func(k string) bool {
